@@ -191,6 +191,9 @@ def oracle (prev cur : State) (mop : MOp) (r : String) : List String :=
         else if r == "false" then
           (if sameLinks prev cur then [] else ["C05.link-false-changed"])
         else ["C05.link-result"]
+      | .unlink c p =>
+        -- a stale unlink (`p` is not the child's supervisor) changes nothing
+        if prev.sup c != some p && !sameLinks prev cur then ["C05.stale-unlink-changed"] else []
       | .spawnlt _ _ =>
         if r == "ok" || r == "err" then [] else ["C05.spawn-result"]
       | .spawnl p =>
@@ -403,7 +406,18 @@ def step (st : DState) (op impl : String) : DState × StepOut :=
     let stepd : Option (MState × Res × MOp) :=
       match parseMOp? ws with
       | some mop => let (m', r) := mstep codeFixed st.m mop; some (m', r, mop)
-      | none => (parseKOp? ws).map fun k => (kstep codeFixed st.m k, Res.unit, MOp.hold 0)
+      | none =>
+        match ws with
+        | [k, cnt, _mode] =>
+          -- a parent that links `cnt` children under itself in `pre_start` and then fails to start (Err, panic,
+          -- dropped start future; Send or thread-local): the cell, the children, then the lifecycle guard's cleanup
+          -- of the parent — nobody is told (`cleanup(None)`, and the parent has no supervisor)
+          if k == "spawnpre" || k == "spawnpret" then
+            let p := st.m.t.n
+            let ops : List MOp := [.spawn] ++ List.replicate (cnt.toNat?.getD 0) (.spawnl p) ++ [.abort p]
+            some (mrun codeFixed st.m ops, Res.err, MOp.hold 0)
+          else none
+        | _ => (parseKOp? ws).map fun k => (kstep codeFixed st.m k, Res.unit, MOp.hold 0)
     match stepd with
     | none => (st, { model := "bad-op" })
     | some (m', r, mop) =>
@@ -412,7 +426,12 @@ def step (st : DState) (op impl : String) : DState × StepOut :=
       | none => ({ st with m := m' }, { model := obs, oracle := ["unparsable"] })
       | some (ir, cur) =>
         let c07 := oracleC07 st cur ws impl
-        let orc := if st.onlyC07 then c07 else oracle st.v cur mop ir ++ c07
+        -- a failed start takes the subtree it had built: everybody this op created is Stopped
+        let pre : Bool := match ws with
+          | k :: _ => (k == "spawnpre" || k == "spawnpret") &&
+              !((List.range cur.n).all (fun i => i < st.v.n || cur.status i == .stopped))
+          | [] => false
+        let orc := if st.onlyC07 then c07 else oracle st.v cur mop ir ++ c07 ++ (if pre then ["C05.failed-start-left-subtree"] else [])
         -- non-trivial: an exit that took at least one other actor with it, a refused link / spawn,
         -- a relink, a children wrapper that had somebody to act on
         let stoppedBefore := (List.range st.m.t.n).countP (fun i => st.m.t.status i == .stopped)
